@@ -94,7 +94,7 @@ type envSpec struct {
 	States  []int `json:"states"`  // per store 1..N
 	Layout  int   `json:"layout"`  // 0 all stores in one zone/host, 1 zones z1 z1 z2 z2 z3 z3 with hosts
 	Feature int   `json:"feature"` // 0 joint consensus used, 1 supported but switched off (demote allowed), 2 not supported
-	Rules   int   `json:"rules"`   // 0 placement rules off, 1 voters in z1/z2 + learner in z3
+	Rules   int   `json:"rules"`   // 0 the default configuration (placement rules on, default rule only), 1 voters in z1/z2 + learner in z3, 2 placement rules switched off
 }
 
 func (e envSpec) key() string { b, _ := json.Marshal(e); return string(b) }
@@ -258,6 +258,9 @@ func newCluster(e envSpec) (*mockcluster.Cluster, context.CancelFunc) {
 			labels = append(labels, &metapb.StoreLabel{Key: "noleader", Value: "true"})
 		}
 		c.PutStore(core.NewStoreInfo(&metapb.Store{Id: id, Labels: labels}, o...))
+	}
+	if e.Rules == 2 {
+		c.SetEnablePlacementRules(false)
 	}
 	if e.Rules == 1 {
 		c.SetEnablePlacementRules(true)
@@ -1203,6 +1206,9 @@ func scopes() []*scope {
 		{name: "setpeers/5stores/1-non-up", tiers: "quick",
 			desc: "origins <=3 x targets <=3 x store 1 or store 5 offline/down/evicted/reject-leader x 3 feature levels x {plain, force}",
 			gen:  genSetPeers(mkEnvs(5, envStates(5, 1, kinds4, []int{0, 4})[1:], l0, f3, r0), origins(5, 3, false), targets(5, 3, true), plainForce, false)},
+		{name: "setpeers/5stores/rules-off", tiers: "quick",
+			desc: "placement rules switched off (the leader eligibility of a store is then decided without the rule fit): origins <=3 x targets <=3 x all up or store 1 / store 5 offline/down/evicted/reject-leader x 3 feature levels x {plain, force}",
+			gen:  genSetPeers(mkEnvs(5, envStates(5, 1, kinds4, []int{0, 4}), l0, f3, []int{2}), origins(5, 3, false), targets(5, 3, true), plainForce, false)},
 		{name: "setpeers/4stores/2-non-up", tiers: "quick",
 			desc: "4 stores, origins <=3 x targets <=3, every assignment of <=2 non-up stores (offline/down/evicted; reject-leader for single stores), 3 feature levels",
 			gen: concat(genSetPeers(mkEnvs(4, envStates(4, 2, kinds3, nil), l0, f3, r0), origins(4, 3, false), targets(4, 3, true), noFlags, false),
